@@ -390,7 +390,8 @@ Inductive op :=
 | OClose (k : nat)    (* a <close> variable holding the handle goes out of scope: coroutine:__close() *)
 | OGc
 | OEnd (rets : list (list Z)) (nslots : nat)
-| OSub (d n : nat).   (* harness: d deeper frames, n temporary coroutines held only in locals there, collections, round robin *)
+| OSub (d n : nat)
+| OForget (k : nat).   (* harness: the ONLY handle of a suspended/dead coroutine is dropped, then collections run *)   (* harness: d deeper frames, n temporary coroutines held only in locals there, collections, round robin *)
 
 Definition depth_of (w : option nat) (s : state) : nat :=
   match w with
@@ -553,6 +554,16 @@ Definition step (o : op) (s : state) : state * list line :=
       (set_halted s2 true,
        l1 ++ [mkLine None 0 "end" []] ++ map (fun k => mkLine None 0 "status" (status_fields k s2)) (seq 0 n))
   | OSub dd n => (s, sub_lines w d (gcon s) dd n)
+  | OForget k =>
+    (* the object becomes unreachable: whether the collector finalizes it now (coroutine_gc -> destroy ->
+       unregister inside the finalizer), later, or never (nogc: it leaks), no handle to it exists any more *)
+    match get k (cos s) with
+    | None => (s, [mkLine w d "forget" [FS "nil"]])
+    | Some c =>
+      if cstate_eqb (co_st c) Suspended || cstate_eqb (co_st c) Dead
+      then (set_cos s (del k (cos s)), [mkLine w d "forget" [FS "ok"]])
+      else (s, [mkLine w d "forget" [FS "active"]])
+    end
   end.
 
 Fixpoint run (ops : list op) (s : state) : state * list line :=
